@@ -38,7 +38,7 @@ def strategy(tier, phase):
 
     return st.fixed_dictionaries({"gen": st.sampled_from([2, 3, 4, 4]), "tape": rmodel.tape_strategy(), "outs": st.lists(st.integers(0, 60), min_size=1, max_size=2),
                                   "ins": st.lists(st.integers(0, 60), min_size=0, max_size=3), "byname": st.integers(0, 3), "target": st.integers(0, 6), "annot": st.one_of(st.just([]), st.lists(st.tuples(st.integers(0, 40), st.integers(0, 7)).map(list), min_size=1, max_size=3)), "mode": st.integers(0, 3), "gattr": st.integers(0, 3),
-                                  "refg": st.sampled_from([False, False, True])})
+                                  "refg": st.sampled_from([False, False, True]), "rereg": st.sampled_from([0, 0, 1, 2, 3])})
 
 
 def nested_graphs(node):
@@ -318,6 +318,17 @@ def execute(case):
             classes.append("device_annotations_in_source")
         except Exception:
             pass
+    if case.get("rereg"):
+        # the source has a history: its initializers were registered a second time (same objects, same names)
+        for k_, w_ in enumerate(list(g.initializers.values())):
+            if (k_ + case["rereg"]) % 2 == 0:
+                if case["rereg"] % 3 == 0:
+                    g.initializers[w_.name] = w_
+                elif w_.const_value is not None:
+                    g.register_initializer(w_)
+                else:
+                    g.initializers.add(w_)
+        classes.append("initializers_registered_again")
     cand = [o for n in g for o in n.outputs if o.name] + [v for v in g.inputs]
     inter = [o for n in g for o in n.outputs if o.name]
     if not inter:
